@@ -265,7 +265,10 @@ impl RandState<'_> {
                 )
             }
             TypeInner::Service(_) => IDLValue::Service(crate::Principal::arbitrary(u)?),
-            _ => unimplemented!(),
+            _ => {
+                self.0.pop_state(old_config, StateElem::Type(ty));
+                return Err(Error::msg(format!("Cannot generate a value of type {ty}")));
+            }
         });
         self.0.pop_state(old_config, StateElem::Type(ty));
         res
@@ -403,6 +406,9 @@ where
             let max = T::max_value();
             let l = T::try_from(l).unwrap_or(min);
             let r = T::try_from(r).unwrap_or(max);
+            if l > r {
+                return Err(Error::msg("range: lower bound is greater than upper bound"));
+            }
             u.int_in_range(l..=r)?
         }
     })
@@ -417,7 +423,11 @@ fn arbitrary_variant(u: &mut Unstructured, weight: &[usize]) -> Result<usize> {
             Some(*sum)
         })
         .collect();
-    let selected = u.int_in_range(0..=prefix_sum[prefix_sum.len() - 1] - 1)?;
+    let total = match prefix_sum.last() {
+        Some(total) if *total > 0 => *total,
+        _ => return Err(Error::msg("empty variant")),
+    };
+    let selected = u.int_in_range(0..=total - 1)?;
     for (i, e) in prefix_sum.iter().enumerate() {
         if selected < *e {
             return Ok(i);
